@@ -254,15 +254,33 @@ class PyModel:
         for p in pairs:
             if p[0] == 'unpack':
                 src = p[1]
+                if ex.branch(L.is_Opaque(src), 'unpack-opaque-mapping'):
+                    # an object the model knows nothing about (e.g. a module-level table built at import time):
+                    # the result holds whatever it held
+                    ex.event('unknown_call', '** of an unknown mapping', (src,))
+                    ex.dict_write('merge-unknown', r, ex.fresh_int('len'),
+                                  z3.Const(ex.fresh_name('dhas'), z3.ArraySort(Val, B)),
+                                  z3.Const(ex.fresh_name('dval'), z3.ArraySort(Val, Val)), None)
+                    first = False
+                    continue
                 if not ex.branch(L.is_Dict(src), 'unpack-dict'):
                     ex.raise_('TypeError', '** of non-mapping')
                 sr = L.simp(Val.dref(src))
+                h = ex.heap
                 if first:
-                    h = ex.heap
                     ex.dict_write('copy', r, h.dlen(sr), h.arr('DHAS')[sr], h.arr('DVAL')[sr], h.arr('DKEY')[sr])
                     ex.event('dict_copy', r, sr)
                 else:
-                    raise Unsupported('** after other entries')
+                    # merge: defined pointwise at the skolem key (the later mapping wins)
+                    kk = z3.Const('K_key', Val)
+                    has2 = z3.Const(ex.fresh_name('dhas'), z3.ArraySort(Val, B))
+                    val2 = z3.Const(ex.fresh_name('dval'), z3.ArraySort(Val, Val))
+                    ex.assume(z3.Select(has2, kk) == z3.Or(h.dhas(r, kk), h.dhas(sr, kk)))
+                    ex.assume(z3.Select(val2, kk) == z3.If(h.dhas(sr, kk), h.dval(sr, kk), h.dval(r, kk)))
+                    n2 = ex.fresh_int('mergedlen')
+                    ex.assume(z3.And(n2 >= h.dlen(r), n2 >= h.dlen(sr), n2 <= h.dlen(r) + h.dlen(sr)))
+                    ex.dict_write('merge', r, n2, has2, val2, None)
+                    ex.event('dict_merge', r, sr)
             else:
                 self.dict_store(ex, r, p[1], p[2], internal=True)
             first = False
@@ -363,6 +381,14 @@ class PyModel:
         # None, numbers, functions ...: not subscriptable; opaque host objects: anything
         if ex.branch(L.is_Opaque(obj), 'getitem-opaque'):
             return self.stubs.unknown_call(ex, 'getitem-on-opaque', [obj, key])
+        if ex.branch(L.is_Fun(obj), 'getitem-callable'):
+            # a builtin exposed as the TYPE itself (dict, list, tuple, type ...) is subscriptable:
+            # dict[1] is a types.GenericAlias, not plain data
+            generic = [k for st, k in self.engine.static_ids.items()
+                       if st.kind == 'builtin' and st.name in ('dict', 'list', 'tuple', 'type', 'set', 'frozenset')]
+            if generic and ex.branch(z3.Or([Val.fn(obj) == k for k in generic]), 'getitem-generic-type'):
+                ex.event('generic_alias', obj, key)
+                return L.OpaqueV(L.OK['other'], ex.fresh_int('genericalias'))
         ex.raise_('TypeError', 'not subscriptable')
 
     def slice_may_raise(self, ex, key):
@@ -783,11 +809,20 @@ class PyModel:
     def with_stmt(self, ex, item, body, env):
         cm = ex.eval(item.context_expr, env)
         if not (isinstance(cm, tuple) and cm and cm[0] == 'contextmanager'):
-            raise Unsupported('with on a non-@contextmanager object')
+            # a context manager the model knows nothing about: arbitrary effects on entry and on exit
+            v = self.stubs.unknown_call(ex, 'with on an object of unknown class', [ex.to_val(cm)] if not isinstance(cm, tuple) else [])
+            if item.optional_vars is not None:
+                ex.assign(item.optional_vars, v, env)
+            try:
+                ex.exec_block(body, env)
+            finally:
+                ex.havoc_data()
+            return
         _, fi, recv, args, kwargs = cm
+        pre = [recv] if recv is not None else []
         contract = self.engine.contracts.get(fi.key)
         if contract is not None and ex.task.finfo is not fi:
-            tok, as_val = contract.enter(ex, [recv] + list(args), kwargs)
+            tok, as_val = contract.enter(ex, pre + list(args), kwargs)
             if item.optional_vars is not None:
                 ex.assign(item.optional_vars, as_val, env)
             try:
@@ -800,7 +835,7 @@ class PyModel:
                 raise
             contract.exit(ex, tok, None)
             return
-        self.run_contextmanager(ex, fi, [recv] + list(args), kwargs,
+        self.run_contextmanager(ex, fi, pre + list(args), kwargs,
                                 lambda v: self._with_body(ex, item, body, env, v))
 
     def _with_body(self, ex, item, body, env, v):
